@@ -232,6 +232,16 @@ def evaluate(ctx, checks, kind, sample, runner, st, info0):
             _v(ctx, "C09", checks, "padding callback called %d times" % len(st.cb), kind, sample, runner)
         else:
             p_in, size_in, r = st.cb[0]
+            # info.size: "the amount of data following the padding" - never negative, never more than the file,
+            # and for the formats with one contiguous tag region exactly what lies behind that region
+            after_region = None
+            if kind.family in ("flac", "id3") and wb["extra"].get("tag_region"):
+                after_region = len(st.before) - wb["extra"]["tag_region"][1]
+            elif kind.family == "mp4" and wb["extra"].get("tag_end") is not None:
+                after_region = len(st.before) - wb["extra"]["tag_end"]
+            if not (0 <= size_in <= len(st.before)) or (after_region is not None and size_in != after_region):
+                _v(ctx, "C09", checks, "info.size given to the callback is not the amount of data following the tag region", kind, sample, runner,
+                   {"info_size": size_in, "file_size": len(st.before), "data_after_region": after_region})
             meas = wa["padding"]
             if meas is not None:
                 want = min(r, FLAC_MAXPAD) if kind.family == "flac" else r
